@@ -258,6 +258,11 @@ func (e *Executor) mkdir(t *ast.Task) error {
 		return nil
 	}
 
+	// A dry run creates nothing, not even the task's dir
+	if e.Dry {
+		return nil
+	}
+
 	mutex := e.mkdirMutexMap[t.Task]
 	mutex.Lock()
 	defer mutex.Unlock()
